@@ -46,6 +46,8 @@ EXTRA_KINDS = {
 def outcome_under(kind, base, options):
     if base == 'disabled':
         return base
+    if kind == 'fail_compile_first' and options == '+SKIP':
+        return 'skipped'
     if kind.startswith('fail_bad_directive'):
         return base         # the directive itself is read (and rejected) whatever the defaults say
     if options == '+SKIP':
